@@ -20,11 +20,11 @@ Local Open Scope list_scope.
 
 (* which variant of the code the correspondence compares with; the integrator
    flips a flag when the corresponding fix commit lands in /repo *)
-Definition code_fixed_F21 := false.
-Definition code_fixed_F22 := false.
-Definition code_fixed_N1 := false.
-Definition code_fixed_N2 := false.
-Definition code_fixed_N3 := false.
+Definition code_fixed_F21 := true.
+Definition code_fixed_F22 := true.
+Definition code_fixed_N1 := true.
+Definition code_fixed_N2 := true.
+Definition code_fixed_N3 := true.
 Definition code_fixes : fixes :=
   mkFix code_fixed_F21 code_fixed_F22 code_fixed_N1 code_fixed_N2 code_fixed_N3.
 
